@@ -120,7 +120,7 @@ proof {
     lemma_reach_refl(n, a);
 }
 '''),
-        LoopSpec('while i < closure.len() {', '''
+        LoopSpec('while $_ {', '''
 invariant
     n == *self, sub_wf(n), a == state0.0, has_state(n, a),
     closure@.len() >= 1, closure@[0] == state0, 0 <= i <= closure@.len(), closure@.len() <= n_len(n),
